@@ -33,13 +33,17 @@ type scn struct {
 	version  string
 	maxChunk int
 	b        sched.Bounds
-	edge     int // behaviour e: release offset in half read delays
+	edge     int  // behaviour e: release offset in half read delays
+	big      bool // replies are longer than the channel's prompt search depth (1000 bytes)
 }
 
 func (s scn) name() string {
 	n := fmt.Sprintf("hist=%s/echo=%v/v=%s/chunk=%d/pre=%d/env=%d", s.hist, s.echo, s.version, s.maxChunk, s.b.Pre, s.b.Env)
 	if s.edge > 0 {
 		n += fmt.Sprintf("/edge=%d", s.edge)
+	}
+	if s.big {
+		n += "/big"
 	}
 	return n
 }
@@ -84,7 +88,11 @@ func scenario(s scn) sched.Scenario {
 				}
 			}
 			srv.Behave = func(i int, req dev.NCReq) (string, dev.NCBehavior) {
-				reply := `<rpc-reply xmlns="` + dev.NSBase + `" message-id="` + req.ID + `"><data><n>` + strconv.Itoa(i) + `</n></data></rpc-reply>`
+				pad := ""
+				if s.big {
+					pad = "<pad>" + strings.Repeat("0123456789", 105) + "</pad>"
+				}
+				reply := `<rpc-reply xmlns="` + dev.NSBase + `" message-id="` + req.ID + `"><data><n>` + strconv.Itoa(i) + `</n>` + pad + `</data></rpc-reply>`
 				if i >= len(s.hist) {
 					return reply, dev.ReplyNow
 				}
@@ -255,15 +263,26 @@ func scenarios(tier string) []sched.Scenario {
 					if tier == "thorough" && len(h) <= 3 && mc != 1 {
 						env = 1
 					}
-					out = append(out, scenario(scn{h, echo, v, mc, sched.Bounds{Env: env}, 0}))
+					out = append(out, scenario(scn{h, echo, v, mc, sched.Bounds{Env: env}, 0, false}))
 				}
 				if len(h) <= 2 {
 					pre := 1
 					if tier == "thorough" {
 						pre = 2
 					}
-					out = append(out, scenario(scn{h, echo, v, 0, sched.Bounds{Pre: pre, Env: 0}, 0}))
+					out = append(out, scenario(scn{h, echo, v, 0, sched.Bounds{Pre: pre, Env: 0}, 0, false}))
 				}
+			}
+		}
+	}
+	// big replies: every single cut of echo + reply
+	for _, h := range []string{"n", "nn", "an"} {
+		for _, echo := range []bool{false, true} {
+			for _, v := range []string{"1.0", "1.1"} {
+				if tier != "thorough" && (!echo || h == "an" || h == "nn" && v == "1.0") {
+					continue
+				}
+				out = append(out, scenario(scn{hist: h, echo: echo, version: v, b: sched.Bounds{Env: 1}, big: true}))
 			}
 		}
 	}
@@ -275,7 +294,7 @@ func scenarios(tier string) []sched.Scenario {
 					if tier != "thorough" && (len(h) > 1 && (echo || v == "1.0")) {
 						continue
 					}
-					out = append(out, scenario(scn{h, echo, v, 0, sched.Bounds{Pre: 2, Env: 0}, k}))
+					out = append(out, scenario(scn{h, echo, v, 0, sched.Bounds{Pre: 2, Env: 0}, k, false}))
 				}
 			}
 		}
@@ -287,7 +306,7 @@ func TestCheck(t *testing.T) {
 	sched.Main(t, sched.Check{
 		ID:    "C08",
 		Level: "model_checking",
-		Rule: "history = one behaviour per request over {reply now, never, late: released after the timed-out call / emitted before the next reply / emitted after the next reply}, all histories up to the length bound x {echo on, off} x {1.0, 1.1} x read presets {whole message, 1 byte, 7 bytes}; a read never spans two server messages; " +
+		Rule: "history = one behaviour per request over {reply now, never, late: released after the timed-out call / emitted before the next reply / emitted after the next reply}, all histories up to the length bound x {echo on, off} x {1.0, 1.1} x read presets {whole message, 1 byte, 7 bytes} (+ replies of 1.1 kB with every single cut); a read never spans two server messages; " +
 			"per scenario all executions within the deviation bound (extra cuts/holds; thread switches among channel reader, NETCONF reader, RPC poller, caller); oracle = message-id bookkeeping against the server model's request log",
 		Assumptions: []string{"the server model echoes (when echo is on) every byte before answering", "timeouts 6.5x read delay; late replies are released at three phases relative to the next request"},
 		Scenarios:   scenarios,
